@@ -180,6 +180,7 @@ def run(F, rep):
                        'each continuation call is conditional on null tests only (an early return or extra condition abandons the following siblings and their subtrees)')
     vkeys = {f.key for f in F.funcs.values() if f.file.endswith('/validator.cpp')}
     n_w = 0
+    n_walkers = 0
     for comp in F.sccs():
         comp = [k for k in comp if k in vkeys]
         if not comp:
@@ -200,6 +201,16 @@ def run(F, rep):
                             rhs = cc[1]
                         if rhs is not None and render(rhs).endswith(('->next()', '->firstChild()')):
                             return True
+                if a.get('k') == 'Ref' and a.get('dk') == 'parm':
+                    # parameter of a local lambda: the step is made where the lambda is called
+                    lam = f.enclosing_lambda(a)
+                    if lam is not None and any(p_.get('d') == a.get('d') for p_ in lam.get('params', [])):
+                        j = next(i for i, p_ in enumerate(lam['params']) if p_.get('d') == a.get('d'))
+                        holders = {v['d'] for v in f.walk() if v.get('k') == 'Var' and v.get('c') and any(x is lam for x in walk(v['c'][0]))}
+                        for d in f.walk():
+                            cc = d.get('c', [])
+                            if d.get('k') == 'Call' and d.get('opc') == '()' and cc and cc[0].get('k') == 'Ref' and cc[0].get('d') in holders and len(cc) > j + 1 and render(cc[j + 1]).endswith(('->next()', '->firstChild()')):
+                                return True
             return False
         calls = []
         for k in comp:
@@ -210,15 +221,32 @@ def run(F, rep):
         recursive = len(comp) > 1 or any(True for f, c in calls)
         if not recursive or not any(steps(f, c) for f, c in calls):
             continue
+        n_walkers += 1
         for f, c in calls:
             conds = ff(f).conds_at(c) or []
             extra = [(render(cn), tr) for cn, tr in conds if null_test(cn) is None]
             n_w += 1
+            # an early exit written before the call, in the same body, under anything but a null test abandons the walk as well (the false edge of a
+            # conjunction leaves no atomic fact behind, so this is decided on the statements)
+            lam_c = f.enclosing_lambda(c)
+            order = {id(n_): k_ for k_, n_ in enumerate(f.walk())}
+            for r_ in f.walk():
+                if r_.get('k') == 'Return' and f.enclosing_lambda(r_) is lam_c and order[id(r_)] < order[id(c)] and not any(x is c for x in walk(r_)):
+                    from engines import enclosing_conditions as _ec04
+                    guards = [cn for cn, br, st in _ec04(f, r_) if lam_c is None or any(x is st for x in walk(lam_c))]
+                    def _nullish(cn):
+                        if cn.get('k') == 'Bin' and cn.get('op') in ('&&', '||'):
+                            return all(_nullish(x) for x in cn['c'])
+                        if cn.get('k') in ('Paren', 'Cast') and len(cn.get('c', [])) == 1:
+                            return _nullish(cn['c'][0])
+                        return null_test(cn) is not None
+                    if guards and not all(_nullish(g_) for g_ in guards):
+                        extra.append(('no early exit at line %s under `%s`' % (r_.get('l'), render(next(g_ for g_ in guards if not _nullish(g_)))[:60]), True))
             rep.check(not extra, 'C04.W1', '%s|%s' % (f.name, render(c)[:50]), f.where(c),
                       '%s: the walk is continued by `%s` only when %s: the siblings and children after such a node are never validated' % (f.short, render(c)[:50], ' and '.join('%s is %s' % e for e in extra)[:160]),
                       'continued whenever the node exists')
-    if n_w < 5:
-        raise AnalysisBroken('C04.W1: %d continuation calls of recursive XML walks found in validator.cpp (5 confirmed)' % n_w)
+    if n_walkers < 2 or n_w < 3:
+        raise AnalysisBroken('C04.W1: %d recursive XML walks with %d continuation calls found in validator.cpp (2 walks with 5 calls confirmed)' % (n_walkers, n_w))
 
     # ------------------------------------------------------------------ S: identifiers of shared objects
     rep.rule('C04.S1', 'the identifier of an object that several entities share (the import source of imported units/components: one <import> element) is entered into the identifier map once per object, '
